@@ -44,6 +44,7 @@ static void puthex(const unsigned char *p, size_t n){ if(!n){ printf("-"); retur
 static void print_data_hex(dispatch_data_t d){ const void *p; size_t n; dispatch_data_t m=dispatch_data_create_map(d,&p,&n); puthex(p,n); dispatch_release(m); }
 
 extern bool _dispatch_verif_block_peek(dispatch_block_t db, volatile void **atomic_flags, volatile void **performed, void **group);
+extern void _dispatch_verif_timer_config(dispatch_time_t start, uint64_t interval, uint64_t leeway, uint8_t timer_flags, uint64_t out[4]);
 static char *base; // &_dispatch_queue_attrs[0]
 static long idx_of(dispatch_queue_attr_t a){ return a ? (long)(((char*)a - base)/16) : -1; }
 static dispatch_queue_attr_t app_conc;    // LFN_NOPIE: DISPATCH_QUEUE_CONCURRENT as this (position-dependent) executable sees it: a copy of the table's first entry in its own .bss
@@ -163,6 +164,9 @@ int main(void){
       printf("%" PRIu64 " %" PRIu64 "\n", r, nw); }
     else if(!strcmp(tok,"TD")){ uint64_t t=strtoull(strtok(NULL," \n"),NULL,10), d=strtoull(strtok(NULL," \n"),NULL,10), iv=strtoull(strtok(NULL," \n"),NULL,10), nw=strtoull(strtok(NULL," \n"),NULL,10); uint64_t pv=strtoull(strtok(NULL," \n"),NULL,10);
       fake_up=nw; fake_mono=nw; fake_wall=nw; fake_clocks=1; unsigned long r=_dispatch_verif_source_timer_data(&t,&d,iv,pv); fake_clocks=0; printf("%lu %" PRIu64 " %" PRIu64 "\n", r, t, d); }
+    else if(!strcmp(tok,"TC")){ uint64_t st=strtoull(strtok(NULL," \n"),NULL,10), iv=strtoull(strtok(NULL," \n"),NULL,10), lw=strtoull(strtok(NULL," \n"),NULL,10); unsigned fc=(unsigned)atoi(strtok(NULL," \n"));
+      fake_up=strtoull(strtok(NULL," \n"),NULL,10); fake_mono=strtoull(strtok(NULL," \n"),NULL,10); fake_wall=strtoull(strtok(NULL," \n"),NULL,10); uint64_t o[4];
+      fake_clocks=1; _dispatch_verif_timer_config(st,iv,lw,(uint8_t)(fc<<2),o); fake_clocks=0; printf("%" PRIu64 " %" PRIu64 " %" PRIu64 " %" PRIu64 "\n",o[0],o[1],o[2],o[3]); }
     else if(!strcmp(tok,"QC")){ long i=atol(strtok(NULL," \n")); dispatch_queue_t q=dispatch_queue_create("qc",attr_of(i));
       int rel=0; unsigned cls=(unsigned)dispatch_queue_get_qos_class(q,&rel); uint16_t w; uint64_t st; uint32_t pr; const char *tl;
       _dispatch_verif_queue_peek(q,&w,&st,&pr,&tl);
